@@ -47,6 +47,60 @@ check('C12',
       TRUST + ' Outside: ASTs that are not instances of the tree family (depth > 3), operator-word names, hand-built ASTs.',
       'symbolic execution of rustc MIR with z3; symbolic operator tables; round-trip assertion', 'DESIGN.md section 5 C12')
 
+check('C03',
+      'Bounded symbolic execution of parse + ExprAST::exec (every built-in handler closure from MIR) on 114 operator/function templates whose operands are context names '
+      'bound to symbolic Values: variant chosen by fork over Number (symbolic 96-bit mantissa, scale from S), i64-sourced integers, Bool, short strings incl. multi-byte, '
+      'lists, maps, None. On every path z3 proves (validity query) that the returned Value equals the reference interpreter\'s value, and the Ok/Err class agrees '
+      '(every ill-typed variant combination must be Err).',
+      TRUST + ' Oracle: /verif/mirsym/harness/refeval.py. Decimal is modelled as exact (mantissa, scale) arithmetic; results rust_decimal would round are skipped and counted (outside_model); quotients of symbolic operands are not compared.',
+      'symbolic execution of rustc MIR with z3; reference-interpreter oracle; validity queries per path', 'DESIGN.md section 5 C03')
+
+check('C04',
+      'Same templates and operand domains as C03, explored on BOTH MIR variants (overflow-checks on = dev, off = release): the assertion is that no path ends in a panic/abort '
+      '(MIR asserts for shift/arith overflow are ordinary branches, so `1 << 64` panics in the dev MIR and would be masked in the release MIR) and that every Ok(Number) equals the '
+      'checked-arithmetic oracle in both, for all operand values incl. zero divisors, +-(2^96-1), i64::MIN/MAX, shift counts <0 and >=64, empty aggregates, None.',
+      TRUST + ' Same oracle and Decimal model as C03.',
+      'symbolic execution of rustc MIR (dev and release variants) with z3', 'DESIGN.md section 5 C04')
+
+check('C05',
+      'Bounded symbolic execution of tokenizer+parser on every input of <= T byte slots (T=4 quick, 5 thorough) over the structural alphabet `1 a ( ) [ ] { } , ; : ? + ! " \' space` plus 30 longer '
+      'skeletons with symbolic separator/closer slots; on every Ok path the token sequence observed at Tokenizer::next is checked by a reference recogniser of the documented grammar (lenient reading). '
+      'Plus the Kani kernel K3 on Tokenizer::expect in C17/C18-style (run under C17? no: run here) .',
+      TRUST + ' Oracle: harness/refparse.py in recogniser mode. Outside: inputs longer than T slots, characters outside the alphabet (C01 covers <= 3-4 arbitrary bytes).',
+      'symbolic execution of rustc MIR with z3; reference recogniser on the observed token stream', 'DESIGN.md section 5 C05')
+
+check('C06',
+      'Bounded symbolic execution of parse + exec on 48 statement-sequence templates (all 11 assignment operators, reads, rebinding with changing types, chained/nested assignment, failing statement at each position, '
+      'unbound names, non-name targets, function-bound names) with symbolic operand Values; result, call log and the entire final Context (entry by entry) must equal the reference interpreter\'s (z3 validity per entry).',
+      TRUST + ' Oracle: harness/refeval.py.', 'symbolic execution of rustc MIR with z3; reference-interpreter oracle incl. final context', 'DESIGN.md section 5 C06')
+
+check('C07',
+      'Bounded symbolic execution of parse + exec on 28 expression templates covering every node kind, whose leaves are observable context functions (call log) returning symbolic Values, with an error injected at the e-th '
+      'invocation (e ranges over all positions; chosen by a symbolic selector). The model\'s call log must equal the reference interpreter\'s exactly (left-to-right, once, lazy conditional, nothing after the error), result and final Context too.',
+      TRUST + ' Oracle: harness/refeval.py.', 'symbolic execution of rustc MIR with z3; observable handlers; fault index as a symbolic selector', 'DESIGN.md section 5 C07')
+
+check('C14',
+      'Symbolic execution with a Mutex ghost state (holder, poisoned): every handler kind performs one of 7 re-entrant actions (parse, execute, register_* x4, lock the evaluating context\'s handle); locking a mutex held by the same thread is '
+      'the Deadlock outcome. 9 templates x 7 actions; assertion: no Deadlock, normal result, locks free afterwards. Counterexamples are replayed natively under a watchdog (hang).',
+      TRUST + ' std::sync::Mutex modelled as non-re-entrant; OnceCell as run-once.', 'symbolic execution of rustc MIR with lock ghost state', 'DESIGN.md section 5 C14')
+
+check('C15',
+      'Symbolic execution including MIR unwind/cleanup edges: the k-th handler invocation (every k, every handler kind: context function by call / bare name, global function, prefix/infix/postfix operator) returns Err or panics. '
+      'Assertions: no later handler runs, the panic reaches the caller unchanged, no registry or context mutex is left held or poisoned (guard drops on cleanup paths poison, as in std), the Context equals the reference interpreter\'s '
+      'state at the failure point, and a follow-up execute/get_variable on the same context works.',
+      TRUST + ' Mutex poisoning modelled per std documentation (guard dropped during unwinding poisons).', 'symbolic execution of rustc MIR incl. unwind edges; fault index as symbolic selector', 'DESIGN.md section 5 C15')
+
+check('C17',
+      'E2 (Kani/CBMC over the compiled crate with the real rust_decimal, nothing stubbed): for ALL values of i8..i128, u8..u128, bool, and non-finite f32/f64, Value::from(n) denotes exactly n. '
+      'E1 (MIR + z3): integer() over a symbolic 96-bit mantissa at scales {0,1,2,5,28} (quick) / 0..28 (thorough): Ok(n) iff the value is the integer n within i64 (validity queries); accessor x variant matrix; From<&str|String|bool|Decimal|Vec> round trips.',
+      TRUST + ' Kani 0.68 / CBMC 6.11 with unwinding assertions. Outside: float() and finite float conversions.',
+      'Kani bounded model checking (all inputs) + symbolic execution of rustc MIR with z3', 'DESIGN.md section 5 C17', engine='mirsym+kani-kernels')
+
+check('C18',
+      'E1: ExprAST::describe and DescriptorManager (derived PartialEq of the key executed from MIR) on 25 ASTs of every node kind under registration configurations none / each single (kind,name) of 16 candidates / each same-name pair of different kinds / all, '
+      'markers as harness closures, expected text from a reference renderer. E2: Kani kernel K4 — set_<kind>/get_<kind> agree on the key and kinds do not alias, for all nine kinds.',
+      TRUST + ' HashMap modelled as association list (Hash not modelled).', 'symbolic execution of rustc MIR + Kani kernel', 'DESIGN.md section 5 C18', engine='mirsym+kani-kernels')
+
 import sys
 props = [json.loads(l) for l in open('/verif/properties.jsonl')]
 for p in props:
